@@ -156,7 +156,7 @@ struct Lite {
     alphabet: std::sync::Arc<Vec<Vec<f64>>>,
     xi: Vec<u8>, // row i = alphabet[xi[i]]
     y: Vec<u8>,
-    weights: u8, // 0 none, 1 alternating 1,2,1,2.., 2 all 0.5, 3 cycling 501,499,499,501
+    weights: u8, // 0 none, 1 alternating 1,2,1,2.., 2 all 0.5, 3 cycling 501,499,499,501, 4..7 with exact zeros
     grid: u8,    // 0 full, 1 small, 2 / 3 weak-split (f64 / f32)
     hash_seed: u64,
     layouts: bool,
@@ -210,7 +210,13 @@ fn expand(l: &Lite, with_configs: bool) -> Case {
         1 => Some((0..n).map(|i| 1.0 + (i % 2) as f32).collect()),
         2 => Some(vec![0.5; n]),
         // nearly balanced heavy weights: nodes like 501:499 against 499:501 (Gini decrease ~2e-6)
-        _ => Some((0..n).map(|i| [501.0f32, 499.0, 499.0, 501.0][i % 4]).collect()),
+        3 => Some((0..n).map(|i| [501.0f32, 499.0, 499.0, 501.0][i % 4]).collect()),
+        // exact zeros: a zero-weight sample is still a row (routing, min_weight_split's row count) but
+        // adds nothing to any class weight
+        4 => Some((0..n).map(|i| if i == 0 { 0.0 } else { 1.0 }).collect()), // one zero
+        5 => Some((0..n).map(|i| if l.y[i] == 0 { 0.0 } else { 1.0 }).collect()), // the whole class of row 0 at zero
+        6 => Some((0..n).map(|i| if i == n / 2 { 1.0 } else { 0.0 }).collect()), // all but one sample at zero
+        _ => Some((0..n).map(|i| (i % 2) as f32).collect()), // alternating 0 / 1
     };
     Case {
         family: l.family.into(),
@@ -280,6 +286,10 @@ struct Stats {
     #[serde(default)]
     builder_orders_checked: u64,
     #[serde(default)]
+    predict_forms_compared: u64,
+    #[serde(default)]
+    fit_forms_compared: u64,
+    #[serde(default)]
     large_fits: u64,
     violations_not_stored: u64,
     child_processes: u64,
@@ -310,6 +320,8 @@ impl Stats {
         self.layout_comparisons += o.layout_comparisons;
         self.predict_layout_comparisons += o.predict_layout_comparisons;
         self.builder_orders_checked += o.builder_orders_checked;
+        self.predict_forms_compared += o.predict_forms_compared;
+        self.fit_forms_compared += o.fit_forms_compared;
         self.large_fits += o.large_fits;
         self.violations_not_stored += o.violations_not_stored;
         self.child_processes += o.child_processes;
@@ -480,13 +492,14 @@ struct Item<'t, F, L> {
 /// Fits one configuration on one memory layout of the records and verifies the tree. Returns a
 /// canonical description of the fitted tree (nodes in level order with exact bit patterns, and
 /// the predictions of the training rows) for the comparison between layouts.
-fn check_one<F: Float, L: Label + Default + std::fmt::Debug, D: ndarray::Data<Elem = F>>(
+fn check_one<F: Float, L: Label + Default + std::fmt::Debug, D: ndarray::Data<Elem = F>, S: ndarray::Data<Elem = L>>(
     case: &Case,
     ci: usize,
     cfg: &Config,
     layout: &str,
-    ds: &linfa::DatasetBase<ndarray::ArrayBase<D, ndarray::Ix2>, Array1<L>>,
+    ds: &linfa::DatasetBase<ndarray::ArrayBase<D, ndarray::Ix2>, ndarray::ArrayBase<S, ndarray::Ix1>>,
     recs: &ndarray::ArrayBase<D, ndarray::Ix2>,
+    fnames: Option<&[String]>,
     alt: &[(&'static str, ndarray::ArrayView2<F>)],
     data: &Data<L>,
     viols: &mut Vec<RawViol>,
@@ -628,7 +641,9 @@ fn check_one<F: Float, L: Label + Default + std::fmt::Debug, D: ndarray::Data<El
                         } else {
                             let fr = data.freq(rows);
                             let mx = fr.iter().cloned().fold(f64::MIN, f64::max);
-                            let modes: Vec<usize> = (0..fr.len()).filter(|&k| fr[k] == mx).collect();
+                            // (only classes that occur in the node: with zero weights a class can be present at weight 0,
+                            // and in a node whose rows all weigh 0 any class present is a weighted mode)
+                            let modes: Vec<usize> = (0..fr.len()).filter(|&k| fr[k] == mx && rows.iter().any(|&r| data.y[r] == k)).collect();
                             if modes.len() > 1 {
                                 st.leaves_with_tied_modes += 1;
                             }
@@ -668,6 +683,14 @@ fn check_one<F: Float, L: Label + Default + std::fmt::Debug, D: ndarray::Data<El
             report("split.feature_out_of_range", format!("split node {} uses feature {} of {}", it.path, feat, d), json!({"node": it.path}));
         } else {
             split_feats.push(feat);
+            // feature-name plumbing: the name given to the dataset (or the documented default)
+            let want_name = match fnames {
+                Some(f) => f[feat].clone(),
+                None => format!("feature-{}", feat),
+            };
+            if node.feature_name() != Some(&want_name) {
+                report("tree.feature_name_wrong", format!("split node {} splits feature {} but feature_name() = {:?}, expected {:?}", it.path, feat, node.feature_name(), want_name), json!({"node": it.path}));
+            }
             dec_sum[feat] += to64(dec_f);
             dec_cnt[feat] += 1;
         }
@@ -850,8 +873,53 @@ fn check_one<F: Float, L: Label + Default + std::fmt::Debug, D: ndarray::Data<El
         report("predict.wrong_length", format!("predict returned {} labels for {} rows", pred.len(), n), json!({}));
         return None;
     }
+    // every calling form of predict must give the labels of predict(&records)
+    if case.layouts {
+        use linfa::traits::PredictInplace;
+        let mut forms: Vec<(&str, Result<Vec<L>, String>)> = vec![
+            ("predict(&dataset)", guarded(|| {
+                let p: Array1<L> = tree.predict(ds);
+                p.to_vec()
+            })),
+            ("predict(dataset.view()) (dataset view passed by value)", guarded(|| {
+                let out: linfa::DatasetBase<ndarray::ArrayView2<F>, Array1<L>> = tree.predict(ds.view());
+                out.targets().to_vec()
+            })),
+        ];
+        // all forms on the tree fitted from standard arrays; on the other layouts only the two forms
+        // above, which read the dataset (whose targets / weights are in other layouts there)
+        if layout == "standard layout" {
+            forms.extend(vec![
+            ("predict(owned records)", guarded(|| {
+                let out: linfa::DatasetBase<Array2<F>, Array1<L>> = tree.predict(recs.to_owned());
+                out.targets().to_vec()
+            })),
+            ("predict(owned dataset without targets)", guarded(|| {
+                let out: linfa::DatasetBase<Array2<F>, Array1<L>> = tree.predict(linfa::DatasetBase::from(recs.to_owned()));
+                out.targets().to_vec()
+            })),
+            ("predict_inplace(&records, &mut targets)", guarded(|| {
+                let mut y: Array1<L> = Array1::default(n);
+                tree.predict_inplace(recs, &mut y);
+                y.to_vec()
+            })),
+            ]);
+        }
+        for (form, got) in forms {
+            st.predict_forms_compared += 1;
+            match got {
+                Ok(v) => {
+                    if v.len() != n || v.iter().zip(pred.iter()).any(|(a, b)| a != b) {
+                        report("predict.calling_form_dependence", format!("{} returns {:?} but predict(&records) returns {:?}", form, v.iter().take(12).collect::<Vec<_>>(), pred.iter().take(12).collect::<Vec<_>>()), json!({"form": form}));
+                    }
+                }
+                Err(e) => report("predict.calling_form_panic", format!("{} panicked: {}", form, e), json!({"form": form})),
+            }
+        }
+    }
     // the same logical rows handed to predict in other memory layouts must get the same labels
-    for (name, view) in alt {
+    // (for the tree fitted from standard arrays; the trees of the other layouts must equal it)
+    for (name, view) in alt.iter().filter(|_| layout == "standard layout") {
         st.predict_layout_comparisons += 1;
         match guarded(|| tree.predict(view)) {
             Ok(p2) => {
@@ -1006,7 +1074,148 @@ fn check_builder_orders<F: Float, L: Label + Default + std::fmt::Debug>(ci: usiz
     }
 }
 
-fn run_typed<F: Float, L: Label + Default + std::fmt::Debug>(case: &Case, names: &[L], skip: &[usize], sink: &mut dyn FnMut(Event)) {
+/// `with_labels` needs Copy labels; String labels skip that form.
+trait CaseLabel: Label + Default + std::fmt::Debug {
+    fn with_labels_fit<F: Float>(p: &linfa_trees::DecisionTreeParams<F, Self>, recs: &Array2<F>, targets: &Array1<Self>, weights: &Option<Vec<f32>>) -> Option<Result<String, String>>;
+}
+impl CaseLabel for String {
+    fn with_labels_fit<F: Float>(_: &linfa_trees::DecisionTreeParams<F, Self>, _: &Array2<F>, _: &Array1<Self>, _: &Option<Vec<f32>>) -> Option<Result<String, String>> {
+        None
+    }
+}
+macro_rules! copy_case_label {
+    ($t:ty) => {
+        impl CaseLabel for $t {
+            fn with_labels_fit<F: Float>(p: &linfa_trees::DecisionTreeParams<F, Self>, recs: &Array2<F>, targets: &Array1<Self>, weights: &Option<Vec<f32>>) -> Option<Result<String, String>> {
+                use linfa::dataset::Labels;
+                let mut ds = Dataset::new(recs.clone(), targets.clone());
+                if let Some(wv) = weights {
+                    ds = ds.with_weights(Array1::from(wv.clone()));
+                }
+                Some(
+                    guarded(|| {
+                        // keep every label that occurs: the same samples in the same order, targets now counted
+                        let keep: Vec<$t> = ds.labels();
+                        let ds2 = ds.with_labels(&keep);
+                        fit_to_summary(p, &ds2, recs)
+                    })
+                    .unwrap_or_else(|e| Err(format!("panicked: {}", e))),
+                )
+            }
+        }
+    };
+}
+copy_case_label!(usize);
+copy_case_label!(bool);
+
+/// fit (unchecked builder) + predict(&records) + canonical description
+fn fit_to_summary<F: Float, L: Label + Default + std::fmt::Debug, D: ndarray::Data<Elem = F>, T>(p: &linfa_trees::DecisionTreeParams<F, L>, ds: &linfa::DatasetBase<ndarray::ArrayBase<D, ndarray::Ix2>, T>, recs: &Array2<F>) -> Result<String, String>
+where
+    T: linfa::dataset::AsSingleTargets<Elem = L> + linfa::dataset::Labels<Elem = L>,
+{
+    match p.fit(ds) {
+        Ok(t) => {
+            let pred: Array1<L> = t.predict(recs);
+            Ok(summarize(&t, &pred))
+        }
+        Err(e) => Err(format!("fit returned Err({})", e)),
+    }
+}
+
+/// Other calling forms of fit, and the dataset helpers of the core crate that data are commonly piped
+/// through before fitting, must give the tree of `params.fit(&dataset)` on plain arrays.
+#[allow(clippy::too_many_arguments)]
+fn check_fit_forms<F: Float, L: CaseLabel>(case: &Case, ci: usize, cfg: &Config, recs: &Array2<F>, targets: &Array1<L>, names: &[L], fnames: &[String], std_summary: &str, viols: &mut Vec<RawViol>, st: &mut Stats) {
+    use linfa::ParamGuard;
+    let n = recs.nrows();
+    let p = build_params::<F, L>(cfg, &[0, 1, 2, 3, 4], false);
+    let w = || case.weights.as_ref().map(|wv| Array1::from(wv.clone()));
+    let plain = || {
+        let mut ds = Dataset::new(recs.clone(), targets.clone());
+        if let Some(wv) = w() {
+            ds = ds.with_weights(wv);
+        }
+        ds
+    };
+    let g = |f: &dyn Fn() -> Result<String, String>| -> Result<String, String> { guarded(f).unwrap_or_else(|e| Err(format!("panicked: {}", e))) };
+    let mut forms: Vec<(&str, Result<String, String>)> = Vec::new();
+    forms.push(("params.check_ref().unwrap().fit(&dataset)", g(&|| {
+        let ds = plain();
+        let t = p.check_ref().map_err(|e| e.to_string())?.fit(&ds).map_err(|e| e.to_string())?;
+        let pred: Array1<L> = t.predict(recs);
+        Ok(summarize(&t, &pred))
+    })));
+    forms.push(("params.check().unwrap().fit(&dataset)", g(&|| {
+        let ds = plain();
+        let t = p.clone().check().map_err(|e| e.to_string())?.fit(&ds).map_err(|e| e.to_string())?;
+        let pred: Array1<L> = t.predict(recs);
+        Ok(summarize(&t, &pred))
+    })));
+    forms.push(("params.fit(&dataset.view())", g(&|| {
+        let ds = plain().with_feature_names(fnames.to_vec());
+        let v = ds.view();
+        let t = p.fit(&v).map_err(|e| e.to_string())?;
+        // feature names must travel through the view
+        if let Some(nm) = t.root_node().feature_name() {
+            let (f, _, _) = t.root_node().split();
+            if *nm != fnames[f] {
+                return Err(format!("the root splits feature {} but is named {:?} instead of {:?} (names set on the dataset the view was taken from)", f, nm, fnames[f]));
+            }
+        }
+        let pred: Array1<L> = t.predict(recs);
+        Ok(summarize(&t, &pred))
+    })));
+    forms.push(("DatasetBase::new(records, class-index view with stride 2).map_targets(index -> label) then fit", g(&|| {
+        let kbig: Array1<usize> = Array1::from_iter((0..2 * n).map(|i| if i % 2 == 0 { case.y[i / 2] } else { (case.y[i / 2] + 1) % names.len() }));
+        let mut ds = linfa::DatasetBase::new(recs.clone(), kbig.slice(ndarray::s![..;2])).map_targets(|k| names[*k].clone());
+        if let Some(wv) = w() {
+            ds = ds.with_weights(wv);
+        }
+        fit_to_summary(&p, &ds, recs)
+    })));
+    forms.push(("DatasetBase::new(records, reversed class-index view of a reversed copy).map_targets(index -> label) then fit", g(&|| {
+        let krev: Array1<usize> = Array1::from_iter((0..n).map(|i| case.y[n - 1 - i]));
+        let mut ds = linfa::DatasetBase::new(recs.clone(), krev.slice(ndarray::s![..;-1])).map_targets(|k| names[*k].clone());
+        if let Some(wv) = w() {
+            ds = ds.with_weights(wv);
+        }
+        fit_to_summary(&p, &ds, recs)
+    })));
+    forms.push(("Dataset::new(records, column-major n x 1 targets).into_single_target() then fit", g(&|| {
+        let t2: Array2<L> = Array2::from_shape_vec(ndarray::ShapeBuilder::f((n, 1)), targets.to_vec()).map_err(|e| e.to_string())?;
+        let mut ds = Dataset::new(recs.clone(), t2).into_single_target();
+        if let Some(wv) = w() {
+            ds = ds.with_weights(wv);
+        }
+        fit_to_summary(&p, &ds, recs)
+    })));
+    forms.push(("Dataset::new(records, every-second-column view of an n x 2 matrix as n x 1 targets).into_single_target() then fit", g(&|| {
+        let t2: Array2<L> = Array2::from_shape_fn((n, 2), |(i, j)| if j == 0 { targets[i].clone() } else { names[(case.y[i] + 1) % names.len()].clone() });
+        let col = t2.slice(ndarray::s![.., ..;2]).to_owned();
+        let mut ds = Dataset::new(recs.clone(), col).into_single_target();
+        if let Some(wv) = w() {
+            ds = ds.with_weights(wv);
+        }
+        fit_to_summary(&p, &ds, recs)
+    })));
+    if let Some(r) = L::with_labels_fit(&p, recs, targets, &case.weights) {
+        forms.push(("dataset.with_labels(all labels present) then fit", r));
+    }
+    for (form, got) in forms {
+        st.fit_forms_compared += 1;
+        let same = matches!(&got, Ok(x) if x == std_summary);
+        if !same && !viols.iter().any(|v| v.sig == "fit.calling_form_dependence") {
+            let cut = |t: &str| -> String { t.chars().take(1000).collect() };
+            viols.push(RawViol {
+                sig: "fit.calling_form_dependence".into(),
+                what: format!("[config #{} {:?}] {} gives {} but params.fit(&dataset) on plain arrays gives {}", ci, cfg, form, match &got { Ok(x) => cut(x), Err(e) => format!("an error: {}", cut(e)) }, cut(std_summary)),
+                at: json!({"config_index": ci, "config": cfg, "form": form}),
+            });
+        }
+    }
+}
+
+fn run_typed<F: Float, L: CaseLabel>(case: &Case, names: &[L], skip: &[usize], sink: &mut dyn FnMut(Event)) {
     let n = case.x.len();
     let d = case.x[0].len();
     let recs: Array2<F> = Array2::from_shape_fn((n, d), |(i, j)| F::cast(case.x[i][j]));
@@ -1026,7 +1235,7 @@ fn run_typed<F: Float, L: Label + Default + std::fmt::Debug>(case: &Case, names:
     distinct.dedup();
     let data = Data { f32_subject: case.float == "f32", xs, y: &case.y, w, names, n_classes };
     let trace = std::env::var("C14_TRACE").is_ok();
-    // other memory layouts of the same logical records (built once per case)
+    // other memory layouts of the same logical records, targets and weights (built once per case)
     let poison = F::cast(-12345.678);
     let cm: Array2<F> = {
         let mut a = Array2::zeros(ndarray::ShapeBuilder::f((n, d)));
@@ -1036,47 +1245,61 @@ fn run_typed<F: Float, L: Label + Default + std::fmt::Debug>(case: &Case, names:
     let fm: Array2<F> = Array2::from_shape_fn((d, n), |(j, i)| recs[(i, j)]);
     let rev: Array2<F> = Array2::from_shape_fn((n, d), |(i, j)| recs[(n - 1 - i, j)]);
     let big: Array2<F> = Array2::from_shape_fn((2 * n, d), |(i, j)| if i % 2 == 0 { recs[(i / 2, j)] } else { poison });
-    fn with_w<'v, F: Float, L: Label>(dsx: linfa::DatasetBase<ndarray::ArrayView2<'v, F>, Array1<L>>, w: &Option<Vec<f32>>) -> linfa::DatasetBase<ndarray::ArrayView2<'v, F>, Array1<L>> {
-        match w {
-            Some(wv) => dsx.with_weights(Array1::from(wv.clone())),
-            None => dsx,
+    let frev: Array2<F> = Array2::from_shape_fn((n, d), |(i, j)| recs[(i, d - 1 - j)]);
+    // targets: reversed view of a reversed copy, every-second view of a longer array with wrong labels between
+    let t_rev: Array1<L> = Array1::from_iter((0..n).map(|i| targets[n - 1 - i].clone()));
+    let t_big: Array1<L> = Array1::from_iter((0..2 * n).map(|i| if i % 2 == 0 { targets[i / 2].clone() } else { names[(case.y[i / 2] + 1) % names.len()].clone() }));
+    // weights: owned arrays with stride -1 / 2
+    let w_layout = |kind: u8| -> Option<Array1<f32>> {
+        case.weights.as_ref().map(|wv| match kind {
+            0 => Array1::from(wv.clone()),
+            1 => Array1::from(wv.iter().rev().cloned().collect::<Vec<f32>>()).slice_move(ndarray::s![..;-1]),
+            _ => Array1::from((0..2 * n).map(|i| if i % 2 == 0 { wv[i / 2] } else { 1.0e6 }).collect::<Vec<f32>>()).slice_move(ndarray::s![..;2]),
+        })
+    };
+    fn mkds<R: linfa::dataset::Records, T>(r: R, t: T, w: Option<Array1<f32>>, names: Option<&Vec<String>>) -> linfa::DatasetBase<R, T> {
+        let mut ds = linfa::DatasetBase::new(r, t);
+        if let Some(w) = w {
+            ds = ds.with_weights(w);
         }
-    }
-    struct Layouts<'a, F: Float, L: Label> {
-        cm: Array2<F>,
-        ds_cm: linfa::DatasetBase<Array2<F>, Array1<L>>,
-        ds_tv: linfa::DatasetBase<ndarray::ArrayView2<'a, F>, Array1<L>>,
-        ds_rv: linfa::DatasetBase<ndarray::ArrayView2<'a, F>, Array1<L>>,
-        ds_ev: linfa::DatasetBase<ndarray::ArrayView2<'a, F>, Array1<L>>,
-    }
-    let (lay, alt): (Option<Layouts<F, L>>, Vec<(&'static str, ndarray::ArrayView2<F>)>) = if case.layouts {
-        let mut ds_cm = linfa::DatasetBase::new(cm.clone(), targets.clone());
-        if let Some(wv) = &case.weights {
-            ds_cm = ds_cm.with_weights(Array1::from(wv.clone()));
+        if let Some(nm) = names {
+            ds = ds.with_feature_names(nm.clone());
         }
+        ds
+    }
+    let fnames: Vec<String> = (0..d).map(|j| format!("col-{}", (b'a' + (j % 26) as u8) as char)).collect();
+    type DsView<'a, F, L> = linfa::DatasetBase<ndarray::ArrayView2<'a, F>, ndarray::ArrayView1<'a, L>>;
+    type DsOwned<'a, F, L> = linfa::DatasetBase<Array2<F>, ndarray::ArrayView1<'a, L>>;
+    let mut lay_views: Vec<(&'static str, DsView<F, L>, bool)> = Vec::new();
+    let mut lay_owned: Vec<(&'static str, DsOwned<F, L>, bool)> = Vec::new();
+    let mut alt: Vec<(&'static str, ndarray::ArrayView2<F>)> = Vec::new();
+    if case.layouts {
         let tv = fm.t();
         let rv = rev.slice(ndarray::s![..;-1, ..]);
         let ev = big.slice(ndarray::s![..;2, ..]);
-        assert!(tv == recs && rv == recs && ev == recs && cm == recs, "harness bug: layouts are not the same logical matrix");
-        (
-            Some(Layouts {
-                cm: cm.clone(),
-                ds_cm,
-                ds_tv: with_w(linfa::DatasetBase::new(tv.clone(), targets.clone()), &case.weights),
-                ds_rv: with_w(linfa::DatasetBase::new(rv.clone(), targets.clone()), &case.weights),
-                ds_ev: with_w(linfa::DatasetBase::new(ev.clone(), targets.clone()), &case.weights),
-            }),
-            vec![
-                ("standard-layout array", recs.view()),
-                ("column-major array", cm.view()),
-                ("transposed view of a feature-major array", tv),
-                ("reversed-row view of a reversed copy", rv),
-                ("every-second-row view of a larger array (filler rows hold poison values)", ev),
-            ],
-        )
-    } else {
-        (None, Vec::new())
-    };
+        let fv = frev.slice(ndarray::s![.., ..;-1]);
+        let t_std = targets.view();
+        let t_rv = t_rev.slice(ndarray::s![..;-1]);
+        let t_ev = t_big.slice(ndarray::s![..;2]);
+        assert!(tv == recs && rv == recs && ev == recs && cm == recs && fv == recs && t_rv == targets && t_ev == targets, "harness bug: layouts are not the same logical data");
+        if let Some(wv) = &case.weights {
+            assert!(w_layout(1).unwrap().to_vec() == *wv && w_layout(2).unwrap().to_vec() == *wv, "harness bug: weight layouts differ logically");
+        }
+        lay_owned.push(("column-major owned records, reversed target view, strided weights, named features", mkds(cm.clone(), t_rv.clone(), w_layout(2), Some(&fnames)), true));
+        lay_owned.push(("standard owned records, strided target view, reversed weights", mkds(recs.clone(), t_ev.clone(), w_layout(1), None), false));
+        lay_views.push(("transposed view of feature-major records, strided target view, reversed weights", mkds(tv.clone(), t_ev.clone(), w_layout(1), None), false));
+        lay_views.push(("reversed-row view of reversed records, standard target view, named features", mkds(rv.clone(), t_std.clone(), w_layout(0), Some(&fnames)), true));
+        lay_views.push(("every-second-row view of larger records (poison filler rows), reversed target view, reversed weights", mkds(ev.clone(), t_rv.clone(), w_layout(1), None), false));
+        lay_views.push(("reversed-feature-axis view of column-reversed records, strided target view, strided weights, named features", mkds(fv.clone(), t_ev.clone(), w_layout(2), Some(&fnames)), true));
+        alt = vec![
+            ("standard-layout array", recs.view()),
+            ("column-major array", cm.view()),
+            ("transposed view of a feature-major array", tv),
+            ("reversed-row view of a reversed copy", rv),
+            ("every-second-row view of a larger array (filler rows hold poison values)", ev),
+            ("reversed-feature-axis view of a column-reversed copy", fv),
+        ];
+    }
     for (ci, cfg) in case.configs.iter().enumerate() {
         if skip.contains(&ci) {
             continue;
@@ -1088,22 +1311,23 @@ fn run_typed<F: Float, L: Label + Default + std::fmt::Debug>(case: &Case, names:
             eprintln!("TRACE {} {} {} x={:?} y={:?} w={:?} cfg#{} {:?}", case.family, case.float, case.label_type, case.x, case.y, case.weights, ci, cfg);
         }
         st.distinct_class_counts[distinct.len().min(6)] += 1;
-        let standard = check_one(case, ci, cfg, "standard layout", &ds, &recs, &alt, &data, &mut viols, &mut st);
+        let standard = check_one(case, ci, cfg, "standard layout", &ds, &recs, None, &alt, &data, &mut viols, &mut st);
         if n > 1000 {
-            st.large_fits += 1 + if case.layouts { 4 } else { 0 };
+            st.large_fits += 1 + if case.layouts { 6 } else { 0 };
         }
         if case.builder_orders {
             check_builder_orders::<F, L>(ci, cfg, &ds, &recs, &mut viols, &mut st);
         }
-        if let Some(lay) = &lay {
-            // the same logical records in four other memory layouts: every oracle again on each, and
-            // the fitted tree must be the very same tree
-            let others = [
-                ("column-major owned array", check_one(case, ci, cfg, "column-major owned array", &lay.ds_cm, &lay.cm, &alt, &data, &mut viols, &mut st)),
-                ("transposed view of a feature-major array", check_one(case, ci, cfg, "transposed view of a feature-major array", &lay.ds_tv, lay.ds_tv.records(), &alt, &data, &mut viols, &mut st)),
-                ("reversed-row view of a reversed copy", check_one(case, ci, cfg, "reversed-row view of a reversed copy", &lay.ds_rv, lay.ds_rv.records(), &alt, &data, &mut viols, &mut st)),
-                ("every-second-row view of a larger array", check_one(case, ci, cfg, "every-second-row view of a larger array", &lay.ds_ev, lay.ds_ev.records(), &alt, &data, &mut viols, &mut st)),
-            ];
+        if case.layouts {
+            // the same logical data in six other memory layouts of records / targets / weights: every
+            // oracle again on each, and the fitted tree must be the very same tree
+            let mut others: Vec<(&'static str, Option<String>)> = Vec::new();
+            for (name, dsx, named) in &lay_owned {
+                others.push((*name, check_one(case, ci, cfg, name, dsx, dsx.records(), if *named { Some(&fnames[..]) } else { None }, &alt, &data, &mut viols, &mut st)));
+            }
+            for (name, dsx, named) in &lay_views {
+                others.push((*name, check_one(case, ci, cfg, name, dsx, dsx.records(), if *named { Some(&fnames[..]) } else { None }, &alt, &data, &mut viols, &mut st)));
+            }
             for (name, other) in others {
                 st.layout_comparisons += 1;
                 if let (Some(a), Some(b)) = (&standard, &other) {
@@ -1111,11 +1335,16 @@ fn run_typed<F: Float, L: Label + Default + std::fmt::Debug>(case: &Case, names:
                         let cut = |t: &String| -> String { t.chars().take(1200).collect() };
                         viols.push(RawViol {
                             sig: "fit.layout_dependence".into(),
-                            what: format!("[config #{} {:?}] the same records fitted from a {} give a different tree than from a standard-layout array: standard {} | other {}", ci, cfg, name, cut(a), cut(b)),
+                            what: format!("[config #{} {:?}] the same data fitted from [{}] give a different tree than from standard-layout arrays: standard {} | other {}", ci, cfg, name, cut(a), cut(b)),
                             at: json!({"config_index": ci, "config": cfg, "layout": name}),
                         });
                     }
                 }
+            }
+            // calling forms of fit and the dataset helpers the data may be piped through
+            // (the form is independent of the limits: run on the configurations with max_depth = None)
+            if let (Some(std_summary), None) = (&standard, cfg.max_depth) {
+                check_fit_forms::<F, L>(case, ci, cfg, &recs, &targets, names, &fnames, std_summary, &mut viols, &mut st);
             }
         }
         if !viols.is_empty() {
@@ -1506,19 +1735,30 @@ fn enumerate_cases(ctx: &Ctx) -> Vec<Lite> {
     for n in 1..=n_a {
         let sets = datasets(3, n, 6);
         // quick: the largest n runs unweighted on the full grid and weighted on the small grid
-        let mut vars = vec![v("f64", "usize", 0, 0, 0)];
+        // quick: the largest n runs on the small grid only
+        let mut vars = vec![v("f64", "usize", 0, if n == n_a && ctx.quick() { 1 } else { 0 }, 0)];
         if n < n_a {
             vars.push(v("f64", "usize", 1, 0, 0));
             vars.push(v("f64", "usize", 2, 0, 0));
-        } else {
+        } else if ctx.thorough() {
             vars.push(v("f64", "usize", 1, 1, 0));
-            if ctx.thorough() {
-                vars.push(v("f64", "usize", 2, 1, 0));
-            }
+            vars.push(v("f64", "usize", 2, 1, 0));
         }
         if n < n_a {
             vars.push(v("f64", "string", 0, 0, 0));
             vars.push(v("f32", "usize", 0, 0, 0));
+        }
+        if n <= ctx.pick(4, 5) {
+            // exact zero weights: one zero, a whole class at zero, all but one at zero, alternating 0 / 1
+            for wk in 4..=7 {
+                vars.push(v(if wk % 2 == 0 { "f64" } else { "f32" }, if wk < 6 { "usize" } else { "string" }, wk, 1, 0));
+            }
+        }
+        if n <= ctx.pick(3, 4) {
+            // one-feature (and, for n = 1, one-row) data through every layout and calling form
+            vars.push(vl("f64", "string", 1, 1, 0));
+            vars.push(vl("f32", "bool", 0, 1, 0));
+            vars.push(vl("f64", "usize", 2, 1, 0));
         }
         if n <= 4 {
             vars.push(v("f64", "bool", 1, 0, 0));
@@ -1540,7 +1780,7 @@ fn enumerate_cases(ctx: &Ctx) -> Vec<Lite> {
     }
     if ctx.quick() {
         // quick only (thorough has all labelings of 6 rows above): 6 rows with 5 or 6 distinct classes
-        let sets: Vec<_> = datasets(3, 6, 6).into_iter().filter(|(_, y)| y.iter().max().map_or(0, |m| *m as usize + 1) >= 5).collect();
+        let sets: Vec<_> = datasets(3, 6, 6).into_iter().filter(|(_, y)| y.iter().max().map_or(0, |m| *m as usize + 1) >= 5).step_by(3).collect();
         push_family(&mut out, "1f_lattice3_n6_5to6_classes", &alpha_a, &sets, &[v("f64", "usize", 0, 1, 0)]);
     }
     // A4: one feature over {0,1,2,3} (room for three nested splits)
@@ -1558,8 +1798,8 @@ fn enumerate_cases(ctx: &Ctx) -> Vec<Lite> {
     for n in 1..=ctx.pick(4, 5) {
         let sets = datasets(4, n, 6);
         // layouts: full grid up to n = 3 (quick) / 4 (thorough), small grid for the largest n
-        let lay_full = n <= ctx.pick(3, 4);
-        let mut vars = vec![vl("f64", "usize", 0, if lay_full { 0 } else { 1 }, 0)];
+        let lay_full = n <= ctx.pick(2, 4);
+        let mut vars = if lay_full || n <= 3 || ctx.thorough() { vec![vl("f64", "usize", 0, if lay_full { 0 } else { 1 }, 0)] } else { Vec::new() };
         if !lay_full {
             vars.push(v("f64", "usize", 0, 0, 0));
         }
@@ -1572,6 +1812,8 @@ fn enumerate_cases(ctx: &Ctx) -> Vec<Lite> {
         }
         if n <= 3 {
             vars.push(vl("f32", "string", 1, 1, 0));
+            vars.push(vl("f64", "usize", 5, 1, 0));
+            vars.push(v("f64", "bool", 7, 1, 0));
         }
         push_family(&mut out, "2f_lattice2x2", &alpha_b, &sets, &vars);
     }
@@ -1600,6 +1842,17 @@ fn enumerate_cases(ctx: &Ctx) -> Vec<Lite> {
             vars.push(vl("f32", "bool", 1, 1, 0));
         }
         push_family(&mut out, "3f_lattice2x2x2", &alpha_f, &sets, &vars);
+    }
+    // W: wide records: an informative feature at column j of d in {4,5,6,7,9}, a decoy feature (the
+    // informative values in reverse row order) next to it, constants elsewhere; all layouts and forms
+    for dd in [4usize, 5, 6, 7, 9] {
+        let base: Vec<(Vec<u8>, Vec<u8>)> = datasets(3, 4, 4).into_iter().filter(|(xi, y)| xi.iter().any(|&a| a != xi[0]) && y.iter().any(|&k| k != y[0])).step_by(ctx.pick(40, 8)).collect();
+        for j in 0..dd {
+            let alpha: Vec<Vec<f64>> = (0..9).map(|k| (0..dd).map(|c| if c == j { (k / 3) as f64 } else if c == (j + 1) % dd { (k % 3) as f64 } else { 7.0 }).collect()).collect();
+            let sets: Vec<(Vec<u8>, Vec<u8>)> = base.iter().map(|(xi, y)| ((0..xi.len()).map(|i| xi[i] * 3 + xi[xi.len() - 1 - i]).collect(), y.clone())).collect();
+            let var = if (dd + j) % 2 == 0 { vl("f64", "usize", 1, 1, 0) } else { vl("f32", "string", 0, 1, 0) };
+            push_family(&mut out, "wide_4_to_9_features", &alpha, &sets, &[var]);
+        }
     }
     // G: size thresholds: 2-feature base datasets of n0 rows cycled to 1025 / 4097 rows
     for n0 in 2..=ctx.pick(2, 3) {
@@ -1672,23 +1925,24 @@ fn main() {
     ctx.set_rule(
         "case = (dataset, float type, label type, sample weights, hash seed) fitted under every configuration of a grid; \
          datasets: ALL value sequences of n rows over the family's alphabet x ALL labelings up to renaming of the classes (restricted growth strings, <= 6 classes; \
-         includes duplicates with conflicting labels, constant features, single-class sets): 1 feature over {0,1,2} (n <= 5 quick / 6 thorough; quick adds n = 6 with >= 5 classes on the small grid), 1 feature over {0,1,2,3} (n <= 4 / 5), \
-         2 features over {0,1}^2 (n <= 4 / 5), 2 features over {0,1,2}^2 (n <= 3 / 4), 3 features over {0,1}^3 (n <= 3 / 4, small grid); memory layouts: the multi-feature families are additionally fitted (all of 3f; 2x2: unweighted, full grid for n <= 3 / 4, small grid for the largest n, + a f32 small-grid variant; 3x3: a weighted small-grid variant; large-n: a f32 variant) from a column-major owned array, a transposed view of a feature-major array, a reversed-row view of a reversed copy and an every-second-row view of a larger array whose filler rows hold poison values - every oracle again on each layout, the tree (nodes with bit-exact thresholds / decreases, predictions of the training rows) must equal the standard-layout tree (fit.layout_dependence), and every fitted tree must predict the same labels for the training rows handed over in each of the five layouts (predict.layout_dependence); \
+         includes duplicates with conflicting labels, constant features, single-class sets): 1 feature over {0,1,2} (n <= 5 quick / 6 thorough; quick: n = 5 on the small grid, plus every third n = 6 dataset with >= 5 classes on the small grid), 1 feature over {0,1,2,3} (n <= 4 / 5), \
+         2 features over {0,1}^2 (n <= 4 / 5), 2 features over {0,1,2}^2 (n <= 3 / 4), 3 features over {0,1}^3 (n <= 3 / 4, small grid); wide records: 4, 5, 6, 7 and 9 features with the informative feature at every column position, a decoy feature next to it and constants elsewhere (every 40th / 8th informative 4-row dataset, small grid, all layouts and forms); \
+         memory layouts: the one-feature datasets of <= 3 / 4 rows (one-feature and one-row shapes) and the multi-feature families are additionally fitted (all of 3f; 2x2: unweighted, full grid for n <= 3 / 4, small grid for the largest n, + a f32 small-grid variant; 3x3: a weighted small-grid variant; large-n: a f32 variant) from six other layouts: column-major owned records, standard owned records, a transposed view of feature-major records, a reversed-row view of a reversed copy, an every-second-row view of a larger array whose filler rows hold poison values, a reversed-feature-axis view of a column-reversed copy - each combined with targets as reversed / every-second-element views (wrong labels in between) and sample weights as owned arrays with stride -1 / 2, three of them with feature names set (split nodes must report the given name, else the default feature-<idx>) - every oracle again on each layout, the tree (nodes with bit-exact thresholds / decreases, predictions of the training rows) must equal the standard-layout tree (fit.layout_dependence), and every fitted tree must predict the same labels for the training rows handed over in each of the five layouts (predict.layout_dependence); on the same cases every calling form of predict (&dataset, dataset view by value, owned records, owned dataset, predict_inplace) must return the labels of predict(&records) (predict.calling_form_dependence), and fit through check_ref / check / a dataset view / map_targets on a strided class-index view / into_single_target from column-major and strided n x 1 targets / with_labels (Copy labels) must give the tree of params.fit(&dataset) (fit.calling_form_dependence; on the configurations with max_depth = None); \
          size thresholds: every 2-feature dataset of 2 (quick) / 2..3 (thorough) rows over {0,1}^2 cycled to 1025 and 4097 rows, large-n grid = 2 x {None,1,2} x min_weight_split {2,600.5,1100} x min_weight_leaf {1,300,1500} x {1e-5,0.1} (108); \
          builder history: every 30th (quick) / 6th (thorough) informative 4-row dataset over {0,1,2}, small grid, each configuration built through all 120 orders of the five setters, plain and with decoy writes first: checked parameters must publish the values set and the fitted tree must equal the canonical-order tree (tree.params.builder_order_dependence; each order = one evaluation), adjacency families = 4 consecutive floats at 2^24 and 256 (f32), 2^53 and 2^40 (f64) (n <= 3 / 4, <= 3 classes; fit can overflow the stack there), \
-         near-equal family {0, 8e-6, 1.6e-5, 2.6e-5, 1} (n <= 4 / 5); label types usize / bool / String; weights none / 1,2,1,2.. / all 0.5 / cycling 501,499,499,501 (nearly balanced nodes, run on the weak-split grid = 2 x {None,1,2} x {1,2,2.5} x min_weight_leaf {1,600,1001} x min_impurity_decrease {1e-9 (f64) or 2e-7 (f32), 1e-5, 0.1} (162) on 1 feature over {0,1,2} with n <= 4 / 5 and {0,1}^2 with n <= 4); \
+         near-equal family {0, 8e-6, 1.6e-5, 2.6e-5, 1} (n <= 4 / 5); label types usize / bool / String; weights none / 1,2,1,2.. / all 0.5 / with exact zeros (one zero, the whole class of row 0 at zero, all but one sample at zero, alternating 0 / 1; small grid; 1 feature n <= 4 / 5 and {0,1}^2 n <= 3, one variant through all layouts) / cycling 501,499,499,501 (nearly balanced nodes, run on the weak-split grid = 2 x {None,1,2} x {1,2,2.5} x min_weight_leaf {1,600,1001} x min_impurity_decrease {1e-9 (f64) or 2e-7 (f32), 1e-5, 0.1} (162) on 1 feature over {0,1,2} with n <= 4 / 5 and {0,1}^2 with n <= 4); \
          full grid = {gini, entropy} x max_depth {None,0,1,2} x min_weight_split {1,2,2.5,3,3.5} (non-integer values: a node reached by floor(v) rows must not be split) x min_weight_leaf {1,2} ({0.5,1} with weights 0.5) x min_impurity_decrease {1e-5,0.1,0.3} (240), \
          small grid (adjacency / near-equal) = 2 x {None,1,2} x {1,2,2.5} x {1,2} x {1e-5,0.1} (72). \
          evaluation = one fit + full verification of the tree; non-trivial = the fitted tree has at least one split node. Distinct by construction of the enumerators.",
     );
     ctx.assume("oracle routes training rows with the documented rule `feature <= split value` -> left (rustdoc of DecisionTree, and the rule TreeNode::fit applies to build its masks)");
     ctx.assume("reported impurity decrease vs decrease recomputed in f64 from the definition: tolerance = 8 f32 ulps (8 x 1.19e-7) of max(parent impurity, 0.5), i.e. ~4.8e-7 for a Gini node near 0.5 (the subject computes impurities in f32; absorbs summation order; the largest error seen is in the evidence); actual decreases within that tolerance of min_impurity_decrease are counted indeterminate");
-    ctx.assume("all sample weights are dyadic (1, 2, 0.5) or small integers (499, 501) so class weights are exact in f32 and f64: a leaf must predict ANY label whose weight equals the maximum exactly (ties accepted, whatever the hash order picks)");
+    ctx.assume("all sample weights are dyadic (1, 2, 0.5) or small integers (499, 501) so class weights are exact in f32 and f64: a leaf must predict ANY label that occurs in the leaf and whose weight equals the maximum exactly (ties accepted; in a node whose rows all weigh 0 any class present); a zero-weight sample is a row like any other for routing and for the row count compared with min_weight_split");
     ctx.assume("min_weight_split is checked against the NUMBER of rows reaching the node (as the property states and the code does); nodes whose total WEIGHT is below it are only counted (parameter doc speaks of weight)");
     ctx.assume("feature importances: >= 0, finite, sum to 1 within 1e-9 (f64) / 1e-5 (f32), only demanded when the tree has a split; mean_impurity_decrease vs own mean of reported decreases within relative 1e-6");
     ctx.assume("hash-map order is a controlled input: in-binary getrandom override + one fresh thread per case keyed by the case's hash_seed (self-tested at start-up); VERIF_SEED plays no role");
     ctx.assume("the subject runs in worker processes (one per harness thread): TreeNode::fit can recurse without end and the resulting stack overflow aborts the process; a worker killed by a signal = violation of the configuration it was running (named by its SIGABRT handler), the case is then re-run without that configuration; before an unbounded fit the same configuration is fitted with max_depth = n + 1 and a tree deeper than n - 1 is reported instead of running the unbounded fit");
-    ctx.assume("empty datasets, non-finite values, zero / negative weights and min_weight_leaf <= 0 are outside the enumerated domain");
+    ctx.assume("empty datasets, non-finite values, negative weights and min_weight_leaf <= 0 are outside the enumerated domain");
 
     let mut cases = enumerate_cases(&ctx);
     // development aid: restrict the sweep to the families whose name contains C14_FAMILY (the run is then marked non-exhaustive)
@@ -1742,6 +1996,8 @@ fn main() {
     ctx.extra("trees_compared_with_the_standard_layout_tree", json!(t.layout_comparisons));
     ctx.extra("predict_calls_on_other_layouts_compared", json!(t.predict_layout_comparisons));
     ctx.extra("setter_orders_built_checked_and_fitted", json!(t.builder_orders_checked));
+    ctx.extra("predict_calling_forms_compared", json!(t.predict_forms_compared));
+    ctx.extra("fit_calling_forms_and_dataset_helper_pipelines_compared", json!(t.fit_forms_compared));
     ctx.extra("fits_on_1025_or_4097_rows", json!(t.large_fits));
     ctx.extra("violations_counted_but_not_stored_beyond_2_per_signature_and_case", json!(t.violations_not_stored));
     ctx.extra("worker_processes_started", json!(t.child_processes));
